@@ -30,6 +30,7 @@ import (
 	"github.com/twmb/franz-go/pkg/kmsg"
 
 	"verifharness/internal/e2e"
+	"verifharness/internal/faultnet"
 	"verifharness/internal/vh"
 )
 
@@ -50,7 +51,16 @@ type plan struct {
 	// other value makes later commits carry lower offsets than earlier ones (rewinds, which the
 	// commit API documents as allowed) while every commit keeps a unique value.
 	Stride int `json:"offset_stride"`
+	// MixedP: the coordinator applies the whole commit but the response the client receives
+	// reports an error for the first listed partition of a topic (and success for the others):
+	// a mixed per-partition result inside one topic.
+	MixedP float64 `json:"mixed_result_p,omitempty"`
 }
+
+var (
+	hiddenReg  sync.Map // plan seed -> map[int32]map[int64]bool
+	mixedFired atomic.Int64
+)
 
 const strideMod = 127 // prime, above the largest number of commits in a plan
 
@@ -105,15 +115,60 @@ var coordErrs = []int16{kerr.CoordinatorLoadInProgress.Code, kerr.CoordinatorNot
 func run(p plan, watchdog time.Duration) (arr []arrival, iss []*issued, final map[int32]int64, clientView map[int32]int64, owned map[int32]bool, inconcl []string) {
 	var clock atomic.Int64
 	var mu sync.Mutex
-	env, err := e2e.NewEnv(p.VT, 1+int(p.Seed%3), nil, kfake.SeedTopics(int32(p.Partitions), topic),
+	var faults atomic.Bool
+	faults.Store(true)
+	hidden := map[int32]map[int64]bool{} // partition -> offsets the coordinator applied but reported as failed
+	hiddenReg.Store(p.Seed, hidden)
+	mrng := rand.New(rand.NewPCG(p.Seed, 9))
+	fnet := &faultnet.Net{}
+	fnet.Decide = func(fr *faultnet.Req) faultnet.Action {
+		if fr.Key != int16(kmsg.OffsetCommit) || p.MixedP == 0 || !faults.Load() {
+			return faultnet.Action{}
+		}
+		mu.Lock()
+		x := mrng.Float64()
+		mu.Unlock()
+		if x >= p.MixedP {
+			return faultnet.Action{}
+		}
+		creq, _ := fr.Decode().(*kmsg.OffsetCommitRequest)
+		if creq == nil || creq.Group != group {
+			return faultnet.Action{}
+		}
+		return faultnet.Action{Kind: faultnet.Rewrite, Rewrite: func(frame []byte) []byte {
+			return faultnet.RewriteBody(fr, frame, func(kresp kmsg.Response) {
+				cr, ok := kresp.(*kmsg.OffsetCommitResponse)
+				if !ok || len(cr.Topics) != len(creq.Topics) {
+					return
+				}
+				mu.Lock()
+				defer mu.Unlock()
+				for ti := range cr.Topics {
+					ps := cr.Topics[ti].Partitions
+					if len(ps) < 2 || ps[0].ErrorCode != 0 {
+						continue
+					}
+					for _, rp := range creq.Topics[ti].Partitions {
+						if rp.Partition == ps[0].Partition {
+							if hidden[rp.Partition] == nil {
+								hidden[rp.Partition] = map[int64]bool{}
+							}
+							hidden[rp.Partition][rp.Offset] = true
+							ps[0].ErrorCode = kerr.UnknownTopicOrPartition.Code
+							mixedFired.Add(1)
+						}
+					}
+				}
+			})
+		}}
+	}
+	env, err := e2e.NewEnv(p.VT, 1+int(p.Seed%3), fnet, kfake.SeedTopics(int32(p.Partitions), topic),
 		kfake.BrokerConfigs(map[string]string{"group.consumer.heartbeat.interval.ms": "100"}))
 	if err != nil {
 		return nil, nil, nil, nil, nil, []string{err.Error()}
 	}
 	defer env.Close()
 	frng := rand.New(rand.NewPCG(p.Seed, 5))
-	var faults atomic.Bool
-	faults.Store(true)
 	var id2name sync.Map
 	env.C.ControlKey(int16(kmsg.OffsetCommit), func(kreq kmsg.Request) (kmsg.Response, error, bool) {
 		env.C.KeepControl()
@@ -313,7 +368,19 @@ func run(p plan, watchdog time.Duration) (arr []arrival, iss []*issued, final ma
 			err := cl.CommitRecords(ctx, rs...)
 			cancel()
 			mu.Lock()
-			if err != nil {
+			mixedHit := false
+			for _, part := range is.Parts {
+				mixedHit = mixedHit || hidden[part][p.offOf(i)]
+			}
+			if err != nil && mixedHit {
+				// CommitRecords returns the first partition error of the response. The only
+				// response of this commit that reached the client is the one the coordinator
+				// applied in full and whose first partition was then reported as failed:
+				// every other partition of it succeeded.
+				for _, part := range is.Parts {
+					is.PartOK[part] = !hidden[part][p.offOf(i)]
+				}
+			} else if err != nil {
 				is.Err = err.Error()
 			} else {
 				for _, part := range is.Parts {
@@ -464,6 +531,18 @@ func judge(r *vh.Run, p plan, mode string, arr []arrival, iss []*issued, final, 
 		}
 	}
 	passedLater := map[int32]map[int64]bool{}
+	// a commit the coordinator applied while the client was told that partition failed (MixedP):
+	// its value is an acceptable final value for that partition, like any unconfirmed commit
+	if h, ok := hiddenReg.LoadAndDelete(p.Seed); ok {
+		for part, offs := range h.(map[int32]map[int64]bool) {
+			for off := range offs {
+				if passedLater[part] == nil {
+					passedLater[part] = map[int64]bool{}
+				}
+				passedLater[part][off] = true
+			}
+		}
+	}
 	for _, a := range arr {
 		if a.Action == "pass" || a.Action == "delay" {
 			if idx := p.idxOf(a.Offset); idx > lastIdx[a.Part] || unconfirmed[idx] {
@@ -492,6 +571,7 @@ func judge(r *vh.Run, p plan, mode string, arr []arrival, iss []*issued, final, 
 		}
 	}
 	r.Count("commit_arrivals", len(arr))
+	r.Count("mixed_partition_results_injected", int(mixedFired.Swap(0)))
 	r.Count("commit_retries_seen", retries)
 	r.Count("commits_delayed_or_failed_by_injection", delayedWhileLater)
 	r.Count("commits_issued", len(iss))
@@ -520,6 +600,9 @@ func gen(rng *rand.Rand, seed uint64, vt bool) plan {
 		p.Yield = 0
 	}
 	p.Stride = []int{1, 1, 3, 50, 126}[rng.IntN(5)] // 126 = strictly decreasing offsets
+	if p.Partitions >= 2 {
+		p.MixedP = []float64{0, 0.1, 0.3}[rng.IntN(3)]
+	}
 	return p
 }
 
@@ -552,7 +635,7 @@ func TestCheck(t *testing.T) {
 		r.Eval(1)
 	}
 	r.Finish("exploration",
-		"one evaluation = one seeded scenario of 30-100 commits issued by one goroutine through CommitOffsets / CommitOffsetsSync / CommitRecords with unique offsets (increasing, or in a seeded non-monotonic order so that later commits rewind earlier ones), while the coordinator delays selected commits, answers some with retriable coordinator errors or partition errors, and a second member joins/leaves; non-trivial = at least one commit was delayed/failed by injection while later commits were issued; distinct by (mode, partitions, injection bucket, retry bucket, rebalances, protocol, issue gap)",
+		"one evaluation = one seeded scenario of 30-100 commits issued by one goroutine through CommitOffsets / CommitOffsetsSync / CommitRecords with unique offsets (increasing, or in a seeded non-monotonic order so that later commits rewind earlier ones), while the coordinator delays selected commits, answers some with retriable coordinator errors or partition errors, applies some commits while reporting an error for the first partition of the topic only (mixed per-partition result), and a second member joins/leaves; non-trivial = at least one commit was delayed/failed by injection while later commits were issued; distinct by (mode, partitions, injection bucket, retry bucket, rebalances, protocol, issue gap)",
 		"autocommit is disabled: autocommits are not issued by the application and would interleave their own values",
 		"CommitUncommittedOffsets is not used because its values are chosen by the client, not the harness (it funnels into the same commit path as CommitOffsetsSync)",
 	)
